@@ -175,6 +175,20 @@ fn exact_fit<C: CI>(ctx: &mut Ctx, what: &str, case: fn(&mut Ctx, &[u8], usize))
     });
 }
 
+/// sequences of 2^10 .. 2^16 symbols and 65 .. 2049 machine words, random and structured contents, a few offsets
+fn huge<C: CI>(ctx: &mut Ctx, what: &str, case: fn(&mut Ctx, &[u8], usize)) {
+    let a = C::alpha();
+    let name = C::NAME;
+    let noff = n_offsets(a.bits);
+    ctx.group(&format!("{name}/{what}/huge"), |ctx| {
+        for (k, n) in huge_lengths(ctx, a.bits).into_iter().enumerate() {
+            let codes = structured_codes(&mut ctx.rng, a, n, k);
+            case(ctx, &codes, [0, 1 % noff, (k * 7 + 3) % noff][k % 3]);
+            cell!(ctx, "{name}/{what}/huge/2^{}", usize::BITS - n.leading_zeros());
+        }
+    });
+}
+
 fn run_rev<C: CI>(ctx: &mut Ctx) {
     let a = C::alpha();
     let name = C::NAME;
@@ -200,6 +214,7 @@ fn run_rev<C: CI>(ctx: &mut Ctx) {
         }
     });
     exact_fit::<C>(ctx, "reverse", rev_case::<C>);
+    huge::<C>(ctx, "reverse", rev_case::<C>);
 }
 
 fn run_comp<C: CI + ComplementMut>(ctx: &mut Ctx)
@@ -228,6 +243,7 @@ fn run_comp<C: CI + ComplementMut>(ctx: &mut Ctx)
         }
     });
     exact_fit::<C>(ctx, "complement", comp_case::<C>);
+    huge::<C>(ctx, "complement", comp_case::<C>);
 }
 
 fn main() {
